@@ -51,6 +51,38 @@ type c17symOp struct {
 	Index int    `json:"index"`
 }
 
+// UnmarshalJSON also accepts the compact form Symtab.tla prints:
+// [op, name, found, scope, index] with op 1 push, 2 pop, 3 define, 4 resolve,
+// name 0 none / 1.. = a.., scope 0 none, 1 GLOBAL, 2 LOCAL.
+func (o *c17symOp) UnmarshalJSON(b []byte) error {
+	if len(b) > 0 && b[0] == '[' {
+		var a []int
+		if err := json.Unmarshal(b, &a); err != nil {
+			return err
+		}
+		if len(a) != 5 || a[0] < 1 || a[0] > 4 || a[1] < 0 || a[3] < 0 || a[3] > 2 {
+			return fmt.Errorf("bad compact symtab op %s", b)
+		}
+		o.Op = []string{"", "push", "pop", "def", "res"}[a[0]]
+		if a[1] > 0 {
+			o.Name = c17symName(a[1])
+		}
+		o.Found = a[2] != 0
+		o.Scope = []string{"", "GLOBAL", "LOCAL"}[a[3]]
+		o.Index = a[4]
+		return nil
+	}
+	type plain c17symOp
+	return json.Unmarshal(b, (*plain)(o))
+}
+
+func c17symName(n int) string {
+	if n <= 26 {
+		return string(rune('a' + n - 1))
+	}
+	return fmt.Sprintf("v%d", n)
+}
+
 type c17symCase struct {
 	ID       string  `json:"id"`
 	Ops      []c17symOp `json:"ops"`
@@ -1006,7 +1038,10 @@ func stageC17Render(raw json.RawMessage) Result {
 	}
 	src := sb.String()
 	cp := c17compileSrc(src)
-	obs := map[string]any{"src": src}
+	obs := map[string]any{}
+	if len(src) < 4000 {
+		obs["src"] = src
+	}
 	if cp.bc == nil {
 		obs["status"] = "rejected"
 		obs["err"] = cp.parseErr + cp.compileErr
@@ -1032,12 +1067,26 @@ func stageC17Render(raw json.RawMessage) Result {
 	}
 	var diffs []string
 	if len(got) != len(want) {
-		diffs = append(diffs, fmt.Sprintf("%d variable accesses emitted, specification %d: got %v want %v", len(got), len(want), got, want))
+		g, w := got, want
+		if len(g) > 40 {
+			g = g[:40]
+		}
+		if len(w) > 40 {
+			w = w[:40]
+		}
+		diffs = append(diffs, fmt.Sprintf("%d variable accesses emitted, specification %d: got %v want %v", len(got), len(want), g, w))
 	} else {
+		nbad := 0
 		for i := range got {
 			if got[i] != want[i] {
-				diffs = append(diffs, fmt.Sprintf("access %d: emitted %v, specification %v", i, got[i], want[i]))
+				nbad++
+				if nbad <= 4 {
+					diffs = append(diffs, fmt.Sprintf("access %d: emitted %v, specification %v", i, got[i], want[i]))
+				}
 			}
+		}
+		if nbad > 4 {
+			diffs = append(diffs, fmt.Sprintf("... %d accesses differ in total", nbad))
 		}
 	}
 	if cp.bc.GlobalCount != c.Globals {
